@@ -919,6 +919,15 @@ fn streams_for(rng: &mut Rng, files: &[&FileD], own: Option<&(FileD, FileD)>, de
     // streams: a run of 0..5 `ok` requests, then usually one `bad` one (which ends the stream),
     // sometimes followed by more requests that must then stay unanswered
     let mut streams: Vec<Vec<Req>> = Vec::new();
+    if rng.chance(1, 8) {
+        // one long stream with every request expected to be answered (the response channel has
+        // capacity 1: exercises the loop's back-pressure path), then one that ends it
+        let mut cur: Vec<Req> = ok.drain(..).map(|k| Req { host: host(rng), k }).collect();
+        if let Some(r) = bad.pop() {
+            cur.push(Req { host: host(rng), k: r });
+        }
+        streams.push(cur);
+    }
     while !ok.is_empty() || !bad.is_empty() {
         let mut cur: Vec<Req> = Vec::new();
         let k = rng.range(0, 5) as usize;
